@@ -271,6 +271,16 @@ def step (line : String) : String :=
       reply (showOpt (fun m => bytesToHex (memBytes m raw.length)) (C.rtr_pdu_header_to_host_byte_order (C.memOfList raw) raw.length 0))
             (bytesToHex (Conv.convHeader raw))
     | none => "bad-op"
+  | ["footer", dir, hex] =>
+    -- the translated `rtr_pdu_convert_footer_byte_order` next to the statement-by-statement model `Conv.convFooter`
+    match dir.toNat?, hexToBytes? hex with
+    | some d, some raw =>
+      if d > 1 ∨ raw.length < 2 then "bad-op" else
+      let cd : Conv.Dir := if d = 0 then .toNetwork else .toHost
+      reply (showOpt (fun m => bytesToHex (memBytes m raw.length))
+              (C.rtr_pdu_convert_footer_byte_order (C.memOfList raw) raw.length 0 (BitVec.ofNat 32 d)))
+            (if Conv.footerNeed cd raw ≤ raw.length then bytesToHex (Conv.convFooter cd raw) else "UNDEF")
+    | _, _ => "bad-op"
   | _ => "bad-op"
 
 end Rtr.CFunDriver
